@@ -1226,6 +1226,10 @@ class WebSocketProtocol13(WebSocketProtocol):
                 self.close(1009, "message too big after decompression")
                 self._abort()
                 return None
+            except zlib.error:
+                # corrupt deflate stream
+                self._abort()
+                return None
 
         if opcode == 0x1:
             # UTF-8 data
